@@ -357,7 +357,7 @@ where
                     config.cases = share.min(u32::MAX as u64) as u32;
                     config.failure_persistence = None;
                     config.max_shrink_iters = 3_000;
-                    config.max_shrink_time = 0;
+                    config.max_shrink_time = 90_000; // ms: shrinking is a convenience, not part of the verdict
                     config.verbose = 0;
                     config.rng_algorithm = RngAlgorithm::ChaCha;
                     config.rng_seed = RngSeed::Fixed(0);
@@ -605,6 +605,14 @@ pub fn make_ctx(tier: Tier, seed: u64) -> Ctx {
 
 static START: OnceLock<Instant> = OnceLock::new();
 
+/// where evidence/ and replays/ are written: /verif, unless VERIF_OUT redirects a development run
+fn out_dir(ctx: &Ctx) -> PathBuf {
+    match std::env::var("VERIF_OUT") {
+        Ok(d) if !d.is_empty() => PathBuf::from(d),
+        _ => ctx.root.clone(),
+    }
+}
+
 pub fn run_property(ctx: &Ctx, prop: &Property, only_sub: Option<&str>) -> RunOutcome {
     let start = *START.get_or_init(Instant::now);
     let mut results = Vec::new();
@@ -652,7 +660,7 @@ pub fn run_property(ctx: &Ctx, prop: &Property, only_sub: Option<&str>) -> RunOu
             ));
         }
         if let Some(f) = &r.failure {
-            let dir = ctx.root.join("replays");
+            let dir = out_dir(ctx).join("replays");
             let _ = std::fs::create_dir_all(&dir);
             let body = json!({
                 "property": prop.id,
@@ -725,7 +733,7 @@ pub fn run_property(ctx: &Ctx, prop: &Property, only_sub: Option<&str>) -> RunOu
             "wall_s": start.elapsed().as_secs_f64(),
             "violations": violations.len(),
         });
-        let dir = ctx.root.join("evidence");
+        let dir = out_dir(ctx).join("evidence");
         let _ = std::fs::create_dir_all(&dir);
         let path = dir.join(format!("{}.json", prop.id));
         if let Err(e) = std::fs::write(&path, serde_json::to_string_pretty(&ev).unwrap()) {
